@@ -25,11 +25,12 @@ RULE = ("cases are (pattern tree, input sequence) pairs; trees enumerated exhaus
 ASSUMPTIONS = ["the in-tree derivative matcher is correct; it is cross-checked on every case with an independent denotational "
                "matcher and, on inputs of length <= 5, with Python's re (re is exponential on repeated nullable bodies)",
                "atoms are Identity predicates on distinct letters (pairwise disjoint), as the property requires"]
-BOUNDS = {"quick": dict(tree=5, seq=4, rand=3000, rsize=14, rlen=12, n=32),
-          "thorough": dict(tree=6, seq=5, rand=150000, rsize=16, rlen=14, n=64)}
+BOUNDS = {"quick": dict(tree=5, seq=4, rand=24000, rsize=14, rlen=12, n=32, ab_tree=0, ab_seq=0, large=14),
+          "thorough": dict(tree=6, seq=5, rand=600000, rsize=16, rlen=14, n=64, ab_tree=8, ab_seq=5, large=200)}
 EXHAUSTIVE = {"quick": True, "thorough": True}
-EXHAUSTIVE_SCOPE = {t: f"all pattern trees with <= {b['tree']} nodes over {{a,b,c}} x all sequences of length <= {b['seq']}; "
-                       "random cases beyond are sampling" for t, b in BOUNDS.items()}
+EXHAUSTIVE_SCOPE = {t: f"all pattern trees with <= {b['tree']} nodes over {{a,b,c}} x all sequences of length <= {b['seq']}" +
+                       (f"; all trees with 6..{b['ab_tree']} nodes over {{a,b}} x all sequences of length <= {b['ab_seq']}" if b["ab_tree"] else "") +
+                       "; random cases beyond are sampling" for t, b in BOUNDS.items()}
 MINIMUM = {"quick": {"monitor.match": 100000, "monitor.nfa_match": 100000, "monitor.starts_with": 100000},
            "thorough": {"monitor.match": 1000000, "monitor.nfa_match": 1000000, "monitor.starts_with": 1000000}}
 ALPHABET = ("a", "b", "c")
@@ -151,6 +152,25 @@ def run(shard, ctx):
                 mon.check(t, s, expr)
         ctx.sample({"pattern": show(mine[len(mine) // 2]), "sequence": "".join(seqs[len(seqs) // 2]),
                     "in_language": R.member(mine[len(mine) // 2], seqs[len(seqs) // 2])})
+        # thorough tier: a second exhaustive family over the 2-letter alphabet reaches patterns of 8 nodes
+        if shard.get("ab_tree"):
+            seen = set()
+            k = 0
+            ab_seqs = R.sequences(("a", "b"), shard["ab_seq"])
+            for n in range(6, shard["ab_tree"] + 1):
+                for t in R.trees_of_size(n, ("a", "b")):
+                    key = show(t)
+                    if key in seen:
+                        continue
+                    seen.add(key)
+                    k += 1
+                    if k % shard["parts"] != shard["part"]:
+                        continue
+                    expr = to_expr(t)
+                    ctx.count("trees.checked_two_letter")
+                    ctx.count("distinct.counted_in_shard", len(ab_seqs) - 1)
+                    for s in ab_seqs:
+                        mon.check(t, s, expr)
         # random larger cases (sampling)
         rng = rng_for(shard["seed"], "c13", shard["part"])
         n = shard["rand"] // shard["parts"]
@@ -177,7 +197,7 @@ def run(shard, ctx):
             if i == 0:
                 ctx.sample({"pattern": show(t), "sequence": "".join(s), "random": True})
         # large patterns: "building a matcher terminates for every pattern" must not depend on patterns being small
-        for i in range(max(2, shard["rand"] // shard["parts"] // 12)):
+        for i in range(shard.get("large", 14)):
             t = R.random_tree(rng, rng.randint(30, 90), ALPHABET)
             for _ in range(2):
                 s = tuple(rng.choice(ALPHABET) for _ in range(rng.randint(0, 6)))
